@@ -174,7 +174,7 @@ CHECKS = {
                 'length <=4 (thorough 5), through eager/lazy memory_input, string_input, argv_input, read_input, mmap_input, file_input, istream_input, cstream_input and buffer_input with Chunk '
                 '1/2/64 and every read-size pattern with <=2 (thorough 3) short reads; oracle: result, consumed bytes, action trace with positions and error identical to the eager memory_input run, '
                 'or std::overflow_error when (and only when) the buffer maximum is smaller than the input',
-        'assumptions': T_ASSUME + ['files of page-boundary sizes for the file based inputs are exercised with small inputs only'],
+        'assumptions': T_ASSUME + ['files of page-boundary sizes (0, 1, page-1, page, page+1, 2 pages, 2 pages+1) are exercised with one grammar (seq<star<one<a>>,eof>) through read/mmap/file_input'],
         'technique': 'explicit-state model checking of buffer_input (BFS over operation x reader-answer histories on the real object) plus exhaustive differential exploration of input classes',
     },
     'C10': {
@@ -236,7 +236,8 @@ CHECKS = {
         'assumptions': T_ASSUME + ['UTF-16/32 and multi-byte binary rules excluded as documented by the library'],
     },
     'C02': {
-        'units': lambda t: [u_core(t), u_conv(t), u_exc(t, 0), u_act(t, 0), u_atoms(t, 0), u_atoms(t, 1), plain_unit('u_c15', 'units/c15.cpp', t), plain_unit('u_c16', 'units/c16.cpp', t)],
+        'units': lambda t: [u_core(t), u_conv(t), u_exc(t, 0), u_act(t, 0), u_atoms(t, 0), u_atoms(t, 1), plain_unit('u_c15', 'units/c15.cpp', t), plain_unit('u_c16', 'units/c16.cpp', t),
+                            plain_unit('u_c03g', 'units/c03g.cpp', t)],
         'rule': 'cursor (pointer, byte, line, column) compared before/after every Control<Rule>::match invocation, internal rules included, in every '
                 'execution of the core, convenience, exception and action spaces',
         'assumptions': T_ASSUME,
